@@ -247,8 +247,17 @@ class Ctx:
 
     def simulate(self, module, cfg, num, depth, label="sim", timeout=600, defs=None):
         """Random behaviours (spec's NextSim prints each complete behaviour once)."""
-        return self.tlc(module, cfg, workers=1, simulate="num=%d" % num, depth=depth + 1, label=label, timeout=timeout,
-                        defs=defs)
+        r = self.tlc(module, cfg, workers=1, simulate="num=%d" % num, depth=depth + 1, label=label, timeout=timeout,
+                     defs=defs)
+        # TLC may evaluate the printing step twice; keep each behaviour once
+        seen, uniq = set(), []
+        for b in r.behaviours:
+            k = json.dumps(b, sort_keys=True)
+            if k not in seen:
+                seen.add(k)
+                uniq.append(b)
+        r.behaviours = uniq
+        return r
 
     def design(self, module, cfg, **kw):
         """Design check: a violation here is a defect of the spec (exit 2)."""
